@@ -77,6 +77,10 @@ CHECKS = {
    technique="TLC enumerates the interleavings of the shared-state models (Conc.tla: node pool + ID counter; JSVM.tla: VM pool); the real code runs 4-32 goroutines under several GOMAXPROCS in a -race build, transcripts are validated by TLC against the serial run (Trace_Runs.tla) and pool hand-overs against Trace_Pool.tla; race reports are violations",
    text="Model: all interleavings of 2-3 goroutines on the pool/ID-counter and VM-pool protocols keep single ownership and distinct IDs. Code: for GOMAXPROCS 1/4/16 (thorough also 2) the -race harness drives the whole corpus concurrently (same schema at once, mixed schemas; with and without javascript); every goroutine's transcript must equal the serial transcript, the get/put events of the node pool must respect single ownership and ID uniqueness, and any data race the detector reports is a violation. Exploration: real schedules are sampled, not enumerated.",
    note="Trusted: TLC, the Go race detector, sync.Pool/atomic. Schedules are those the runtime happens to produce."),
+ "C06": dict(cat="model_checking", design="5/C06",
+   technique="TLA+ spec FlatLines.tla (csv2 line buffer with one flat field slice, offset shifting, rows-based and header/footer matching, column selection; rune slicing of fixed-length columns) checked by TLC against the logical-table reference; cases replayed on csv2, fixedlength2, legacy fixed-length and legacy csv with rich payloads; random tables re-evaluated by TLC (Trace_FlatLines.tla)",
+   text="TLC checks on every small table x record declaration x column set that the values the buffer model hands to node creation are the texts at the declared positions, in input order, with consistent offsets and no reachable panic guard, and that rune slicing equals the clipped slice. Every case is concretised (delimiters incl. multi-byte runes, quoting, embedded delimiters/quotes/newlines, leading/trailing blanks, payloads beyond 4 KiB and 64 KiB, CRLF, missing final terminator) and run on four real readers; larger random tables are validated by TLC.",
+   note="Trusted: TLC, the CSV encoder of the harness, encoding/csv and bufio. Payload space is sampled; shape space is exhaustive at small scope."),
 }
 
 def main():
